@@ -88,11 +88,25 @@ Proof. exact reported_cwd_inside. Qed.
 Theorem C11_rooted_clean_b_correct : forall s, rooted_clean_b s = true <-> rooted_clean s.
 Proof. exact rooted_clean_b_spec. Qed.
 
-(* finding (reported under C01, kept visible here): with Fs.ChangeDir calling itself, CWD
-   with an argument and CDUP never return - the session, and the process, end there *)
-Theorem C11_cwd_cdup_do_not_return : forall s p,
-  FS_CHANGEDIR_RECURSES = true -> p <> [] -> step s (CCwd p) = None /\ step s CCdup = None.
-Proof. exact cwd_fatal. Qed.
+(* CWD <dir> / CDUP through the FTP step function, from every reachable session state:
+   the session survives, the host file system is not touched, the working directory stays
+   rooted-clean; the reply is 250 exactly when the target - a path inside the root - is a
+   directory, and then the new working directory names that directory; otherwise 550 and
+   nothing changes.  (Over all histories: C11_ftp_invariant keeps sess_ok, which holds
+   the rooted-clean working directory, along every command sequence including CWD/CDUP.) *)
+Theorem C11_ftp_cwd_cdup_stay_inside : forall root rs s c p,
+  clean_root root rs -> sess_ok root s -> cwd_arg c = Some p ->
+  exists s' code,
+    step s c = Some (s', mkR [code] PNone [rp_of s p]) /\
+    sess_ok root s' /\ s_fs s' = s_fs s /\ inside root (rp_of s p) /\
+    (code = 250 /\ is_dir (s_fs s) (rp_of s p) = true /\
+       (forall c', real_path root c' (h_cwd (s_h s')) = rp_of s p)
+     \/ code = 550 /\ is_dir (s_fs s) (rp_of s p) = false /\ s' = s).
+Proof. exact ftp_cwd_spec. Qed.
+
+(* no command of the model ends the process: every command sequence runs to its end *)
+Theorem C11_ftp_run_completes : forall cmds s, snd (run s cmds) = false.
+Proof. exact run_not_fatal. Qed.
 
 (* ---- non-vacuity ---- *)
 Definition ex_root : bytes := [47;115;114;118;47;102;116;112].            (* /srv/ftp *)
@@ -123,6 +137,16 @@ Example C11_session_example :
   lookup (s_fs s') (ex_root ++ [47;99]) = Some NDir.
 Proof. vm_compute. repeat split. Qed.
 
+(* CWD a; CWD ../..; CDUP (at "/"); CWD /../a/../..; PWD: the working directory never leaves "/" *)
+Example C11_cwd_escape_attempts :
+  let '(s', rsps, fatal) := run (init_sess ex_fs ex_root)
+        [CCwd [97]; CPwd; CCwd [46;46;47;46;46]; CPwd; CCdup; CPwd; CCwd [47;46;46;47;97;47;46;46;47;46;46]; CPwd;
+         CCwd [46;46;47;98]] in
+  map r_codes rsps = [[250]; [257]; [250]; [257]; [250]; [257]; [250]; [257]; [550]] /\ fatal = false /\
+  map r_pay rsps = [PNone; PText [47;97]; PNone; PText [47]; PNone; PText [47]; PNone; PText [47]; PNone] /\
+  h_cwd (s_h s') = [47].
+Proof. vm_compute. repeat split. Qed.
+
 Print Assumptions C11_clean_rooted_no_dotdot.
 Print Assumptions C11_real_path_shape.
 Print Assumptions C11_real_path_contained.
@@ -133,4 +157,5 @@ Print Assumptions C11_ftp_outside_untouched.
 Print Assumptions C11_ftp_invariant.
 Print Assumptions C11_reported_cwd_inside.
 Print Assumptions C11_rooted_clean_b_correct.
-Print Assumptions C11_cwd_cdup_do_not_return.
+Print Assumptions C11_ftp_cwd_cdup_stay_inside.
+Print Assumptions C11_ftp_run_completes.
